@@ -30,3 +30,28 @@ func isPropagatedError(err error) bool {
 	}
 	return false
 }
+
+// locateError gives every structured error in err's chain that carries no
+// location the place the error belongs to: the innermost location already
+// recorded in the chain, or else the token the parser stopped at. It only has
+// an effect in position-tracking mode (ParseWithPositions).
+func (p *Parser) locateError(err error) error {
+	if err == nil || p.positions == nil {
+		return err
+	}
+	loc := p.currentLocation()
+	for e := err; e != nil; e = errors.Unwrap(e) {
+		if ge, ok := e.(*goerrors.Error); ok && (ge.Location.Line != 0 || ge.Location.Column != 0) {
+			loc = ge.Location
+		}
+	}
+	if loc.Line == 0 && loc.Column == 0 {
+		return err
+	}
+	for e := err; e != nil; e = errors.Unwrap(e) {
+		if ge, ok := e.(*goerrors.Error); ok && ge.Location.Line == 0 && ge.Location.Column == 0 {
+			ge.Location = loc
+		}
+	}
+	return err
+}
